@@ -1,0 +1,12 @@
+//go:build verif
+
+package build
+
+import "github.com/thought-machine/please/src/core"
+
+// Verification hook for property C07 (deterministic hashes). Add-only; compiled only with -tags verif.
+
+// VerifSourceHash is the unexported sourceHash: the hash of all sources (and tools) of a target.
+func VerifSourceHash(state *core.BuildState, target *core.BuildTarget) ([]byte, error) {
+	return sourceHash(state, target)
+}
